@@ -37,6 +37,10 @@ class Potential_Form_Registry(object):
       self._potential_forms.update(self._register_standard())
       self._reserved_labels = self._standard_potentialform_labels()
 
+    if register_pymath_functions:
+      # ... as are the names under which the pymath functions are offered to formulas
+      self._reserved_labels = set(self._reserved_labels) | self._pymath_labels()
+
     self._potential_forms.update(self._build_table_forms(cfg.table_form))
 
     try:
@@ -134,6 +138,10 @@ class Potential_Form_Registry(object):
     pairs = list(itertools.permutations(self._potential_forms.values(), 2))
     for a,b in pairs:
       a.potential_function.register_function(b.potential_function)
+
+  def _pymath_labels(self):
+    from . import _pymath
+    return set(["pymath.{}".format(name) for name, _f in inspect.getmembers(_pymath, inspect.isfunction) if not name.startswith("_")])
 
   def _register_pymath_functions(self):
     # mathfuncs = ["factorial"]
